@@ -196,6 +196,14 @@ fn boundary(out: &mut Out, skip_wide_div: bool) {
             for a in &vals {
                 for b in &vals {
                     ev_constop(out, op, &Constant::new_big(a.clone(), w), &Constant::new_big(b.clone(), w));
+                    // the same pair through the evaluator (executor::eval has its own code per operator)
+                    if [1usize, 8, 32, 63, 64, 65, 128].contains(&w) {
+                        let ea: Expression = Constant::new_big(a.clone(), w).into();
+                        let eb: Expression = Constant::new_big(b.clone(), w).into();
+                        if let Ok(e) = ctor_bin(op, ea, eb) {
+                            ev_eval(out, &e);
+                        }
+                    }
                 }
             }
         }
